@@ -291,93 +291,101 @@ Definition finish_request (num : N) (q : req_sum) (cont : bool) (cc0 : bool) (st
           Next {| l_num := num; l_br := br; l_fbr := fbr; l_rd := {| buf := b; chunks := cs; tl := t |};
                   l_off := off; l_dirty := dirty1 |}).
 
-(* One iteration of the `for` loop. *)
-Definition serve_iter (s : lst) : list event * iter_end :=
-  let num := (l_num s + 1)%N in
+(* ---- one iteration of the `for` loop, in three steps ---- *)
+
+(* 1. wait for the first byte of the request *)
+Inductive fb_out :=
+| FbGot (b : bytes) (cs : list bytes) (fbr : bool)   (* b = what br holds now (non-empty), cs = later reads *)
+| FbSilent                                           (* io.EOF, or ErrNothingRead on a keep-alive connection *)
+| FbTimeout.                                         (* ErrNothingRead on the first request: error response *)
+
+Definition first_byte (s : lst) : fb_out :=
   let rd := l_rd s in
-  let t := tl rd in
-  let off := l_off s in
-  (* wait for the first byte *)
-  let first : option (bytes * list bytes * bool) + (list event * iter_end) :=
-    if negb (reduce_mem cfg) || l_br s then
-      (* br = acquireReader(ctx) if nil; b, err = br.Peek(1) *)
-      match peek1 (buf rd) (chunks rd) with
-      | Some (b, cs) => inl (Some (b, cs, l_fbr s))
-      | None => match t with
-                | Eof => inr (silent_exit (l_dirty s))              (* io.EOF *)
-                | Open => if (1 <? num)%N                           (* ErrNothingRead *)
-                          then inr (silent_exit (l_dirty s))
-                          else inr (error_exit EcTimeout)
-                end
-      end
-    else
-      (* br, err = acquireByteReader(&ctx): every error becomes io.EOF *)
-      match fbr_chunks (chunks rd) with
-      | None => inr (silent_exit (l_dirty s))
-      | Some cs0 => match peek1 [] cs0 with
-                    | Some (b, cs) => inl (Some (b, cs, true))
-                    | None => inr (silent_exit (l_dirty s))         (* not reachable: fbr_chunks yields a non-empty chunk *)
-                    end
-      end in
-  match first with
-  | inr r => r
-  | inl None => silent_exit (l_dirty s)
-  | inl (Some (b0, cs0, fbr)) =>
-    let ev_act := [St StActive; ParseAt off (length b0)] in
-    (* pipelined responses still in bw: readLoop once, Flush before waiting for more input *)
-    let need0 := match fhead F b0 with FhMore => true | _ => false end in
-    let ev_fl := if l_dirty s && need0 then [Flush] else [] in
-    let dirty := l_dirty s && negb need0 in
-    let pre := ev_act ++ ev_fl in
-    let out (r : list event * iter_end) := (pre ++ fst r, snd r) in
-    match read_head b0 cs0 with
-    | RhErr e => out (error_exit e)
-    | RhEnd b' => match head_end F b' t with
-                  | None => out (silent_exit dirty)
-                  | Some e => out (error_exit e)
-                  end
-    | RhOk q hn b1 cs1 =>
-      let b2 := skipn hn b1 in
-      if q_expect q then
-        (* the body is not read yet; the reader may be released *)
-        let '(br, fbr', b3) := release_rule b2 fbr in
-        (* 'Expect: 100-continue' handling *)
-        let reject (st : Z) :=
-          (* continueReadingRequest = false; br.Reset(ctx.c) drops what is buffered; connectionClose = true *)
-          out (finish_request num q false true st br fbr' [] cs1 t (off + hn) dirty) in
-        let go_on :=
-          (* write + Flush "100 Continue"; br = acquireReader(ctx) if nil; ContinueReadBody *)
-          let ev_c := [Resp continue_resp; Flush] in
-          match read_body q b3 cs1 with
-          | RbErr e => (pre ++ ev_c ++ fst (error_exit e), Exit)
-          | RbEnd b' => (pre ++ ev_c ++ fst (error_exit (match body_end F q b' t with Some e => e | None => EcOther end)), Exit)
-          | RbOk bn b4 cs4 =>
-              let b5 := skipn bn b4 in
-              let '(br2, fbr2, b6) := release_rule b5 (br && fbr') in
-              let r := finish_request num q true false StatusOK br2 fbr2 b6 cs4 t (off + hn + bn) false in
-              (pre ++ ev_c ++ fst r, snd r)
-          end in
-        match xmode cfg with
-        | XExpectHandler =>
-            let st := expect_status E num q in
-            if Z.eqb st StatusContinue then go_on else reject st
-        | XContinueHandler =>
-            if continue_ok E num q then go_on else reject StatusExpectationFailed
-        | XNone => go_on
-        end
-      else
-        match read_body q b2 cs1 with
-        | RbErr e => out (error_exit e)
-        | RbEnd b' => match body_end F q b' t with
-                      | None => out (silent_exit dirty)
-                      | Some e => out (error_exit e)
-                      end
-        | RbOk bn b3 cs3 =>
-            let b4 := skipn bn b3 in
-            let '(br, fbr', b5) := release_rule b4 fbr in
-            out (finish_request num q true false StatusOK br fbr' b5 cs3 t (off + hn + bn) dirty)
-        end
+  if negb (reduce_mem cfg) || l_br s then
+    (* br = acquireReader(ctx) if nil; b, err = br.Peek(1) *)
+    match peek1 (buf rd) (chunks rd) with
+    | Some (b, cs) => FbGot b cs (l_fbr s)
+    | None => match tl rd with
+              | Eof => FbSilent                                   (* io.EOF *)
+              | Open => if (1 <? l_num s + 1)%N then FbSilent     (* ErrNothingRead, connRequestNum > 1 *)
+                        else FbTimeout
+              end
     end
+  else
+    (* br, err = acquireByteReader(&ctx): every error becomes io.EOF *)
+    match fbr_chunks (chunks rd) with
+    | None => FbSilent
+    | Some cs0 => match peek1 [] cs0 with
+                  | Some (b, cs) => FbGot b cs true
+                  | None => FbSilent                              (* not reachable: fbr_chunks starts with a non-empty chunk *)
+                  end
+    end.
+
+(* 3. after the head was read (hn bytes discarded, b2 still buffered): body, Expect handling, handler, response *)
+Definition after_head (s : lst) (fbr dirty : bool) (q : req_sum) (hn : nat) (b2 : bytes) (cs1 : list bytes)
+  : list event * iter_end :=
+  let num := (l_num s + 1)%N in
+  let t := tl (l_rd s) in
+  let off := l_off s in
+  if q_expect q then
+    (* readLimitBody returns without reading the body; the reader may be released *)
+    let '(br, fbr', b3) := release_rule b2 fbr in
+    (* continueReadingRequest = false; br.Reset(ctx.c) drops what is buffered; connectionClose = true *)
+    let reject (st : Z) := finish_request num q false true st br fbr' [] cs1 t (off + hn) dirty in
+    (* write + Flush "100 Continue"; br = acquireReader(ctx) if nil; ContinueReadBody; every error is answered *)
+    let go_on :=
+      let ev_c := [Resp continue_resp; Flush] in
+      match read_body q b3 cs1 with
+      | RbErr e => (ev_c ++ fst (error_exit e), Exit)
+      | RbEnd b' => (ev_c ++ fst (error_exit (match body_end F q b' t with Some e => e | None => EcOther end)), Exit)
+      | RbOk bn b4 cs4 =>
+          let '(br2, fbr2, b6) := release_rule (skipn bn b4) (br && fbr') in
+          let r := finish_request num q true false StatusOK br2 fbr2 b6 cs4 t (off + hn + bn) false in
+          (ev_c ++ fst r, snd r)
+      end in
+    match xmode cfg with
+    | XExpectHandler =>
+        let st := expect_status E num q in
+        if Z.eqb st StatusContinue then go_on else reject st
+    | XContinueHandler =>
+        if continue_ok E num q then go_on else reject StatusExpectationFailed
+    | XNone => go_on
+    end
+  else
+    match read_body q b2 cs1 with
+    | RbErr e => error_exit e
+    | RbEnd b' => match body_end F q b' t with
+                  | None => silent_exit dirty
+                  | Some e => error_exit e
+                  end
+    | RbOk bn b3 cs3 =>
+        let '(br, fbr', b5) := release_rule (skipn bn b3) fbr in
+        finish_request num q true false StatusOK br fbr' b5 cs3 t (off + hn + bn) dirty
+    end.
+
+(* 2. the head.  Responses of pipelined requests still in bw: readLoop once, Flush before waiting for more input *)
+Definition serve_req (s : lst) (b0 : bytes) (cs0 : list bytes) (fbr : bool) : list event * iter_end :=
+  let need0 := match fhead F b0 with FhMore => true | _ => false end in
+  let ev_fl := if l_dirty s && need0 then [Flush] else [] in
+  let dirty := l_dirty s && negb need0 in
+  let r := match read_head b0 cs0 with
+           | RhErr e => error_exit e
+           | RhEnd b' => match head_end F b' (tl (l_rd s)) with
+                         | None => silent_exit dirty
+                         | Some e => error_exit e
+                         end
+           | RhOk q hn b1 cs1 => after_head s fbr dirty q hn (skipn hn b1) cs1
+           end in
+  (ev_fl ++ fst r, snd r).
+
+Definition serve_iter (s : lst) : list event * iter_end :=
+  match first_byte s with
+  | FbSilent => silent_exit (l_dirty s)
+  | FbTimeout => error_exit EcTimeout
+  | FbGot b0 cs0 fbr =>
+      (* idleConnTime.Store(0); s.setState(c, StateActive) *)
+      let r := serve_req s b0 cs0 fbr in
+      (St StActive :: ParseAt (l_off s) (length b0) :: fst r, snd r)
   end.
 
 Inductive loop_end := LExit | LHijack | LOutOfFuel.
@@ -400,6 +408,8 @@ Inductive admission := Admit | RejectPerIP | RejectConcurrency.
 
 Definition fast_resp : resp := {| r_kind := RkFast; r_status := StatusServiceUnavailable; r_conn := [strClose] |}.
 
+Definition perip_resp : resp := {| r_kind := RkFast; r_status := StatusTooManyRequests; r_conn := [strClose] |}.
+
 Definition lst_init (rd : reader) : lst :=
   {| l_num := 0%N; l_br := false; l_fbr := false; l_rd := {| buf := []; chunks := buf rd :: chunks rd; tl := tl rd |};
      l_off := 0; l_dirty := false |}.
@@ -415,8 +425,8 @@ Definition after_loop (r : loop_end) : list event :=
 Definition serve_conn_fuel (fuel : nat) (en : entry) (ad : admission) (rd : reader) : list event :=
   match ad with
   | RejectPerIP =>
-      (* Serve: acceptConn closes the conn and goes on accepting; ServeConn: returns ErrPerIPConnLimit *)
-      match en with ViaServe => [Close] | ViaServeConn => [] end
+      (* wrapPerIPConn (from acceptConn or ServeConn): writeFastError 429, c.Close(); no state is reported *)
+      [Resp perip_resp; Flush; Close]
   | RejectConcurrency =>
       match en with
       | ViaServe => [St StNew; Resp fast_resp; Flush; Close; St StClosed]   (* wp.Serve(c) == false *)
